@@ -404,9 +404,11 @@ def in_space(mj, m):
     his = [hc.hi for hc in m.hcons]
     if len(set(his)) != len(his):
         return "duplicate-hi"
-    ids = [ep.id for ep in m.rels]
-    if len(set(ids)) != len(ids):
-        return "duplicate-ids"
+    # the identifiers EP.__init__ assigns (before _uniquify_ids renames repeated ones) are pairwise
+    # distinct: this is the hypothesis `BaseIdsDistinct` of the theorems
+    base = [("q" + variable.split(ep.iv)[1] if ep.is_quantifier() else ep.iv) if ep.iv else "_0" for ep in m.rels]
+    if len(set(base)) != len(base):
+        return "duplicate-base-ids"
     for ep in m.rels:
         if ep.iv is None or variable.type(ep.iv) not in ("x", "e", "i", "p", "u"):
             return "odd-sort"
@@ -597,8 +599,11 @@ class C04(Check):
             "sorts), 3% with a mutual-argument scope (F08 class); (c) semgen.gen_mrs_tree and one-step mutations of "
             "(b)/(c) (dangling handles, dropped constraints, shared IVs, relabelled EPs); (d) semgen.gen_mrs_wild "
             "(arbitrary MRSs). The isomorphism / second-conversion / top / index clauses are evaluated on the inputs of "
-            "the property's space (is_well_formed, qeq constraints, x/e/i/p/u intrinsic variables); link "
-            "justification, node shape and the correspondence with the model on every case. "
+            "the property's space: is_well_formed, qeq constraints only, one constraint per hole, no constrained "
+            "handle that is also a label, x/e/i/p/u intrinsic variables, pairwise distinct EP identifiers, every "
+            "quantifier with RSTR selecting a scope and BODY, binding the intrinsic variable of the first representative "
+            "(by the documented definition) of its restriction; the reason a case is outside is counted (space:*). "
+            "Totality, link justification, node/top/index shape and the correspondence with the model on every case. "
             "Non-trivial = at least one predication; distinct by JSON text.")
     assumptions = [
         "variable strings are (sort, canonical decimal id); names are ASCII",
@@ -608,6 +613,10 @@ class C04(Check):
         "the scope labels the implementation chose; theorems hold for every choice",
         "warnings are not observed; lnk is a character span or absent",
         "the isomorphism clause is checked by mrs.is_isomorphic and by an independent backtracking search, not proved",
+        "DMRS identifies the variable a quantifier binds with the target of its RSTR link (first representative of the "
+        "restriction): MRSs whose quantifier binds another member of the restriction are counted as outside the space "
+        "(the round trip rebinds the quantifier); likewise intrinsic variables of sorts outside x/e/i/p/u "
+        "(from_dmrs reads arguments with types='xeipu' and drops links to such nodes)",
     ]
     trusted_base = ["hand-written model lean/Verif/C04/Model.lean over lean/Verif/Common/Sem.lean, tied to "
                     "delphin.dmrs._operations.from_mrs / delphin.mrs._operations.from_dmrs by the correspondence run",
